@@ -47,7 +47,9 @@ cp "$COQ/C04/Model.v" "$W/mut/C04m/Model.v"
 echo "control      identical copy of the model: $(evalcases) of $total cases disagree (must be 0)"
 mut "SASL <success/> flush unchecked (wru instead of wr: the code before its repair)" 's/  wr WSuccess ;;;/  wru WSuccess ;;;/'
 mut "no ctx test after the negotiator call (the code before its repair)" '/^Fixpoint session/,/^  end\./ s/      ctx ;;;.*$/      Ret tt ;;;/'
-mut "Ready not cleared on an error return (the code before its repair)" 's/(N.ldiff (w_bits w) st_Ready)/(w_bits w)/'
+# (no perturbation of Model.finish: since features.go stopped applying a feature's Ready bit early, the
+#  clearing of Ready on error returns cannot be observed; C04_error_state_not_ready_before_clearing
+#  proves the property without it)
 mut "bind: stanza error of the callback answered and the session reported ready (before its repair)" 's/| VBind e => match e with BOk => false | _ => true end/| VBind e => match e with BErr => true | _ => false end/'
 mut "ctx_done off by one (<=?)" 's/Some c => c <? w_ops w/Some c => c <=? w_ops w/'
 mut "Expect without its ctx test" '/^Fixpoint expect/,/^  end\./ s/      ctx ;;;/      Ret tt ;;;/'
@@ -59,9 +61,9 @@ mut "error of a custom List step swallowed (seeded change m8)" 's/  | VList _ e 
 mut "error of a custom Parse step swallowed" 's/  | VParse _ e => e/  | VParse _ e => false/'
 mut "deadline not kept expired after the cancellation (session.go before e0a2b45)" 's/| Some c => p_deadline pl \&\& ((c <? i) || ((i =? c) \&\& p_entry pl))/| Some c => p_deadline pl \&\& ((i =? c) \&\& p_entry pl)/'
 mut "restart keeps the tokens buffered by the old decoder" 's/| RSSame => mkW (w_ops w) (drop_to_brk (w_script w))/| RSSame => mkW (w_ops w) (w_script w)/'
-mut "List error without the deferred partial flush" 's/if f_lerr f then wru WPartial ;;; Fail/if f_lerr f then Fail/'
+mut "List error without the deferred partial flush" 's/                      (fun _ => wru WPartial ;;; Fail)/                      (fun _ => Fail)/'
 mut "mask of a feature applied only by the session loop (not in negotiateFeatures)" 's/  or_bits (N.ldiff (fst o) st_Ready) ;;;/  Ret tt ;;;/'
-mut "voluntary feature ends the selection loop" 's/| RSNone => if req then Ret (after_loop l o) else init_loop/| RSNone => if true then Ret (after_loop l o) else init_loop/'
+mut "voluntary feature ends the selection loop" "/^Fixpoint init_loop/,/^  end\./ s/| RSNone => if req then Ret (after_loop l ready' o)/| RSNone => if true then Ret (after_loop l ready' o)/"
 mut "component: <handshake/> accepted without reading its end" 's/| Open KHandshake => guard id ;;; skip n 0 ;;;/| Open KHandshake => guard id ;;;/'
 mut "bind result accepted without reading the whole element" 's/| Open (KIq ok) => skip n 0 ;;; guard ok ;;; Ret (st_Ready, RSNone)/| Open (KIq ok) => guard ok ;;; Ret (st_Ready, RSNone)/'
 mut "ws: <open/> accepted without reading its end" 's/(if ws then skip n'"'"' 0 else Ret tt) ;;;/Ret tt ;;;/'
